@@ -258,7 +258,7 @@ func init() {
 		ID:      "C15",
 		PkgDirs: []string{"internal/transfer"},
 		Level:   "other",
-		Explanation: "Every control-stream decoder (readControlMessage and the nine read* it dispatches to, readControlHeader, the legacy RecvManifest/readRelPath and RecvFile headers) is executed symbolically on an input buffer of N fully symbolic bytes behind an in-memory stream that reports EOF at its end. " +
+		Explanation: "Every control-stream decoder (readControlMessage and the nine read* it dispatches to, readControlHeader, the legacy RecvManifest/readRelPath and RecvFile headers) is executed symbolically on an input buffer of N fully symbolic bytes behind an in-memory stream that reports EOF at its end; the data-stream side is covered by running the real RecvManifestMultiStream (goroutines as symbolic threads) with arbitrary bytes on the data stream after a FileBegin whose chunk size is 4, 0 or huge. " +
 			"Outcomes decided by the solver per path: a Go panic (index, slice, nil, type assertion, divide, negative make) is a violation; a blocked operation is a violation; every make() whose size is a function of input bytes must satisfy bytes <= 64 MiB + 2N for all inputs (sat = concrete hostile message). Counterexamples replay natively (panic, or runtime.MemStats.TotalAlloc delta).",
 		Rule:        "assertion sites: vAssert lines of H_C15_* plus one allocation obligation per make() site whose size depends on input",
 		Assumptions: []string{"input length N case-split 0..24 (quick) / 0..48 (thorough)", "after an input-sized allocation the path is followed for lengths 0..4 (quick) / 0..8 (thorough) elements; longer ones end at the allocation (reported as outside_bound)", "JSON body of the manifest is opaque (Unmarshal: arbitrary outcome)", "the stream returns EOF at the end of the buffer (no stalling peer)"},
@@ -292,9 +292,24 @@ func init() {
 				it.setFields(arr.kids[0], map[string]Value{"RelPath": &StrV{it.InBytes("jsonPath", 1)}, "IsDir": it.In("jsonIsDir", "bool", 0), "Size": it.In("jsonSize", "i64", 64)})
 				it.field(mc, "Items").v = &SliceV{arr: arr, off: 0, ln: 1, cp: 1, elem: itemT}
 			}
+			ds := hj("C15.datastream", "H_C15_datastream", "arbitrary bytes on the data stream of the real receiver (symbolic threads)")
+			fr := hj("C15.frame", "H_C15_frame", "one arbitrary frame for the announced file, chunk size 4 or 0, one preemption of the main loop at a select")
+			for _, j := range []*Job{ds, fr} {
+				j.Threads = true
+				j.TimersNeverFire = true
+				j.EagerCalls = []string{"writeFileDone", "hashFileChunk"}
+				j.MaxPaths = 5000000
+			}
+			fr.Preempt = 1
+			fr.PreemptAt = "select"
+			js = append(js, ds, fr)
 			for _, j := range js {
 				j.AllocLimit = 64<<20 + 2*48
 				j.Workers = 6
+				if j.Threads {
+					j.Workers = 16
+					continue
+				}
 				j.HangIsViolation = true
 				j.MaxSteps = 400000
 				if tier == "thorough" {
